@@ -133,6 +133,19 @@ func unmarshalTraceRequest(data []byte) (*coltracepb.ExportTraceServiceRequest, 
 
 func spanToJson(span *tracepb.Span, service string) ([]byte, error) {
 	result := make(map[string]interface{})
+
+	// Make a column for each attribute key. This is done first, so that an
+	// attribute named like one of the span's own fields (status, service, name,
+	// duration, ...) cannot replace that field.
+	for _, keyvalue := range span.Attributes {
+		key, value, err := extractKeyValue(keyvalue)
+		if err != nil {
+			return nil, fmt.Errorf("spanToJson: failed to extract KeyValue: %v", err)
+		}
+
+		result[key] = value
+	}
+
 	result["trace_id"] = hex.EncodeToString(span.TraceId)
 	result["span_id"] = hex.EncodeToString(span.SpanId)
 	result["parent_span_id"] = hex.EncodeToString(span.ParentSpanId)
@@ -150,16 +163,6 @@ func spanToJson(span *tracepb.Span, service string) ([]byte, error) {
 		result["status"] = span.Status.Code.String()
 	} else {
 		result["status"] = "Unknown"
-	}
-
-	// Make a column for each attribute key.
-	for _, keyvalue := range span.Attributes {
-		key, value, err := extractKeyValue(keyvalue)
-		if err != nil {
-			return nil, fmt.Errorf("spanToJson: failed to extract KeyValue: %v", err)
-		}
-
-		result[key] = value
 	}
 
 	eventsJson, err := json.Marshal(span.Events)
